@@ -140,11 +140,6 @@ theorem run_converges {cfg : JCfg} (hs : AgentState cfg) (ev : List (Str × Eval
     rw [hname, compareOne_failed hn] at hm
     cases hm
 
-/-- the agent's own run is the instance "emitted order" -/
-theorem run_eq {cfg : JCfg} (hs : AgentState cfg) (ev : List (Str × Evaluated)) :
-    run .fixed cfg ev = applyAll cfg ((compare ev (viewCfg cfg)).map (render .fixed)) := by
-  simp [run, plan, readInstalled_agentState hs]
-
 theorem run_converges_emitted {cfg : JCfg} (hs : AgentState cfg) (ev : List (Str × Evaluated))
     (hv : EvValid ev) : ∃ cfg', run .fixed cfg ev = .ok cfg' ∧ Converged ev cfg cfg' := by
   rw [run_eq hs]
